@@ -980,3 +980,33 @@ Theorem c18_ants_model_witness_conflicts :
   exists i j, hb_conflict (ra_trace AstFixed 1 ra_lw_progs ra_lw_sched) i j.
 Proof. exact ra_fixed_lw_conflicts. Qed.
 Print Assumptions c18_ants_model_witness_conflicts.
+
+(* ------------------------------------------------------------------------------------------------
+   (D21) The general statement announced as "NOT proved" in the block above IS NOW PROVED:
+
+   c18_ants_model_race_free: for EVERY pool size n, client programs (Send with any options and handler
+   scripts, Get2, Close), schedule and select choices, the labelled trace of the FIXED step model has no
+   happens-before race.  closeChan and len(taskChan) are not labelled (fewer edges: stronger).
+   Proof (proofs/RaceAntsInv.v, RaceAntsCases.v, RaceAntsProofs.v): vector-clock monitor invariant indexed by
+   the ghost owner of each task -- the thread that holds task t knows the last write and every read of its
+   result/err; while t is in taskChan the message carries them; after wg.Done the wait group carries the last
+   write; locations beyond the arena were never accessed -- re-established by each of the nine kinds of step
+   (ra_minv_step), every step of the fixed machine being of one of these kinds by the ownership invariant
+   ast_inv (ra_step_kind); hbp_agree turns "the monitor never flags" into "no hb race".
+   c18_ants_model_conflicts_ordered: equivalently, every conflicting pair of accesses in such a trace is
+   ordered by happens-before.
+   Non-vacuity: c18_ants_model_witness_conflicts (the trace of the late-write schedule does contain conflicting
+   accesses of three threads), and c18_ants_model_orig_race_refuted (the same labelling flags the pre-fix code). *)
+Theorem c18_ants_model_race_free :
+  forall (n : nat) (progs : list (list ast_op)) (sched : list (nat * bool)),
+    ~ hb_race (ra_trace AstFixed n progs sched).
+Proof. exact ra_race_free. Qed.
+Print Assumptions c18_ants_model_race_free.
+
+Theorem c18_ants_model_conflicts_ordered :
+  forall (n : nat) (progs : list (list ast_op)) (sched : list (nat * bool)) (i j : nat),
+    i < j -> j < length (ra_trace AstFixed n progs sched) ->
+    hb_conflict (ra_trace AstFixed n progs sched) i j ->
+    hb_hb (ra_trace AstFixed n progs sched) i j.
+Proof. exact ra_conflicts_ordered. Qed.
+Print Assumptions c18_ants_model_conflicts_ordered.
